@@ -92,4 +92,17 @@ theorem cache_keeps_recently_used (cap : Nat) (hc : 2 ≤ cap) (hist : List Op) 
 example : (run (empty 2) [.insert 1 10, .insert 2 20, .get 1, .insert 3 30, .get 2, .get 1, .insert 1 11, .get 1]).2 =
     [some 10, some 20, some 10, some 30, none, some 10, some 11, some 11] := by decide
 
+/-- **A hit hands out a value that was inserted under that very key**: whatever `get k` returns
+after any history was put into the cache by an `insert k _` of that history. -/
+theorem cache_hit_was_inserted_under_its_key (cap : Nat) (hist : List Op) (k v : Nat)
+    (h : (step (run (empty cap) hist).1 (.get k)).2 = some v) : Op.insert k v ∈ hist := by
+  have := cache_answers_sound cap hist (.get k) v h
+  simp only at this
+  rw [specAfter_snoc] at this
+  simp only [specStep] at this
+  rw [specAfter_eq] at this
+  rcases fold_some_was_inserted hist _ k v this with h' | h'
+  · exact h'
+  · cases h'
+
 end Rain.Lru
